@@ -105,6 +105,7 @@ pub fn run(ctx: &Ctx) -> Report {
     let ops = { let mut o = all_single_byte_ops(); o.extend(multibyte_ops()); o };
     let spaces: Vec<(ProgSpace, bool)> = vec![
         (p_gc(), true),
+        (p_gc_after(), true),
         (p4(ctx.pick(16, 80), false), true),
         (p5_full(), false),
         (p1("P1", ops, ctx.pick(vec![vec![], vec![1], vec![0x80]], a6()), vec![vec![2u8], vec![11]], 2), false),
